@@ -113,7 +113,7 @@ def c08():
     return codegen_check('C08', 'rv64')
 
 
-ISAS = ['x86_64']
+ISAS = ['x86_64', 'aarch64', 'rv64']
 
 
 def c09():
